@@ -149,7 +149,9 @@ Definition is_connclose (c : cact) : bool := match c with CConnClose => true | _
 (* ---- environment level: where schedules come from ----
    ticker.C has one slot (a fire while a tick is pending is dropped); quit is
    closed at most once; a select with nothing ready blocks (no step), with one
-   case ready takes it, with both ready takes the one the random bit names. *)
+   case ready takes it; with both ready the runtime picks one at random (the bit), but the
+   tick branch polls quit before pinging and returns if it is closed, so either way the
+   loop observes quit: [STick] in a schedule means "tick taken AND quit still open". *)
 Inductive ev :=
 | EFire                     (* the ticker fires *)
 | ECloseQuit                (* the receive loop closes quit *)
@@ -165,9 +167,34 @@ Fixpoint resolve (pending closed : bool) (evs : list ev) : list sel :=
       | false, false => resolve false false r
       | true, false => STick :: resolve false false r
       | false, true => SQuit :: resolve false true r
-      | true, true => if b then STick :: resolve false true r else SQuit :: resolve true true r
+      | true, true => SQuit :: resolve true true r   (* whichever case the runtime picks: on a tick
+                                                       the loop first polls quit, the end wins *)
       end
   end.
 
 Definition count_fire (evs : list ev) : nat :=
   length (filter (fun e => match e with EFire => true | _ => false end) evs).
+
+(* ---- the transport object outlives its connections ----
+   Client.Connect / Client.Resume re-use the same Transport: XMPPTransport.Connect replaces
+   t.conn.  Close waits (up to ConnectTimeout) between writing the closing tag and closing the
+   connection: it closes the connection it was ENTERED with, whatever t.conn is by then. *)
+Definition xmpp_close_target (conn_at_entry conn_after_wait : N) : N := conn_at_entry.
+
+(* one attempt of Client.Resume on that object *)
+Inductive attempt :=
+| AttOk             (* session established, PostResumeHook (if any) returned nil *)
+| AttConnectFails   (* connect() returned an error *)
+| AttHookFails.     (* session established but PostResumeHook returned an error: Resume returns it *)
+
+(* keep-alive (and receive) loops started by the attempt: none when Resume reports failure *)
+Definition loops_started (a : attempt) : nat := match a with AttOk => 1 | _ => 0 end.
+(* a failed attempt does not leave a session open behind it *)
+Definition attempt_leaves_session (a : attempt) : bool := match a with AttOk => true | _ => false end.
+Fixpoint loops_of (h : list attempt) : nat :=
+  match h with [] => 0 | a :: r => loops_started a + loops_of r end.
+Definition is_att_ok (a : attempt) : bool := match a with AttOk => true | _ => false end.
+
+(* NewClient: every non-positive KeepaliveInterval is replaced by the default (microseconds) *)
+Definition default_interval : Z := 30000000%Z.
+Definition client_interval (cfg : Z) : Z := if (cfg <=? 0)%Z then default_interval else cfg.
